@@ -614,7 +614,8 @@ class kMinPathError(pathmodel.AbstractPathModelDAG):
         non_empty_slacks = []
         non_empty_scaled_slacks = []
         for path, weight, slack, scaled_slack in zip(solution["paths"], solution["weights"], solution["slacks"], solution.get("scaled_slacks", solution["slacks"])):
-            if len(path) > 1:
+            # for node-weighted input a single node is a genuine (weighted) path; an empty one has no node at all
+            if len(path) > (0 if self.flow_attr_origin == "node" else 1):
                 non_empty_paths.append(path)
                 non_empty_weights.append(weight)
                 non_empty_slacks.append(slack)
